@@ -1073,10 +1073,83 @@ def S_dotted(node):
     return None
 
 
+def read_scale_tie(repo):
+    """What `_spectral.Solve` receives as its `sigma_y` must BE the yield stress of the surface.
+
+    Behavior.__Spectral passes an attribute of the surface (`self.__yield.<field>`); for every
+    surface that declares a quadratic form P (the only ones that reach the spectral path) the
+    constructor must fill that field with the very name its yield function subtracts
+    (`f = phi - sigma_y - R`).  Anything else (a floored / rescaled / renamed value) fails closed."""
+    btree, bsrc, brel = parse(repo, "EasyFEA/Models/InElastic/_behavior.py")
+    fn = find_func(btree, "__Spectral", "Behavior")
+    calls = [n for n in ast.walk(fn) if isinstance(n, ast.Call) and S_dotted(n.func) == "_spectral.Solve"]
+    if len(calls) != 1:
+        fail(fn, "__Spectral must call _spectral.Solve exactly once", brel)
+    call = calls[0]
+    stree, ssrc, srel = parse(repo, "EasyFEA/Models/InElastic/_spectral.py")
+    sparams = [a.arg for a in find_func(stree, "Solve").args.args]
+    if "sigma_y" not in sparams:
+        raise TranslateError("%s: Solve has no sigma_y parameter" % srel)
+    idx = sparams.index("sigma_y")
+    arg = None
+    if idx < len(call.args):
+        arg = call.args[idx]
+    for k in call.keywords:
+        if k.arg == "sigma_y":
+            arg = k.value
+    seg = (ast.get_source_segment(bsrc, arg) or "").replace(" ", "") if arg is not None else ""
+    if not seg.startswith("self.__yield.") or seg.count(".") != 2:
+        fail(call, "the yield stress handed to _spectral.Solve is `%s`, not a field of the yield surface" % seg, brel)
+    field = seg.split(".")[-1]
+    ytree, ysrc, yrel = parse(repo, "EasyFEA/Models/InElastic/Yield.py")
+    ycls = [n for n in ytree.body if isinstance(n, ast.ClassDef) and n.name == "YieldSurface"]
+    if not ycls:
+        raise TranslateError("%s: YieldSurface not found" % yrel)
+    fields = [n.target.id for n in ycls[0].body if isinstance(n, ast.AnnAssign) and isinstance(n.target, ast.Name)]
+    if field not in fields or "P" not in fields:
+        raise TranslateError("%s: YieldSurface has no field %s" % (yrel, field))
+    fi, pi = fields.index(field), fields.index("P")
+    tied = []
+    for ctor in ytree.body:
+        if not isinstance(ctor, ast.FunctionDef):
+            continue
+        rets = [n for n in ctor.body if isinstance(n, ast.Return) and isinstance(n.value, ast.Call) and S_dotted(n.value.func) == "YieldSurface"]
+        if not rets:
+            continue
+        for r in rets:
+            a = r.value.args
+            kw = {k.arg: k.value for k in r.value.keywords}
+            P = a[pi] if pi < len(a) else kw.get("P")
+            if P is None or (isinstance(P, ast.Constant) and P.value is None):
+                continue          # no quadratic form: never takes the spectral path
+            val = a[fi] if fi < len(a) else kw.get(field)
+            if not isinstance(val, ast.Name) or val.id not in [x.arg for x in ctor.args.args]:
+                fail(r, "%s fills YieldSurface.%s with `%s`, but _spectral.Solve uses that field as the yield stress: it must be the constructor's own yield-stress parameter" % (ctor.name, field, ast.get_source_segment(ysrc, val) if val is not None else None), yrel)
+            # ... and that parameter is what the yield function subtracts
+            fdefs = [n for n in ctor.body if isinstance(n, ast.FunctionDef) and n.name == "f"]
+            okf = False
+            for fd in fdefs:
+                for rr in [n for n in ast.walk(fd) if isinstance(n, ast.Return)]:
+                    e = rr.value
+                    # phi - <val> - R
+                    if isinstance(e, ast.BinOp) and isinstance(e.op, ast.Sub) and isinstance(e.left, ast.BinOp) and isinstance(e.left.op, ast.Sub) \
+                            and isinstance(e.left.right, ast.Name) and e.left.right.id == val.id:
+                        okf = True
+            if not okf:
+                fail(ctor, "%s: the yield function does not read `phi - %s - R`" % (ctor.name, val.id), yrel)
+            # the parameter must not be re-bound inside the constructor
+            if any(isinstance(n, ast.Assign) and any(isinstance(t, ast.Name) and t.id == val.id for t in n.targets) for n in ast.walk(ctor)):
+                fail(ctor, "%s re-binds %s" % (ctor.name, val.id), yrel)
+            tied.append(ctor.name)
+    if not tied:
+        raise TranslateError("%s: no quadratic yield surface found" % yrel)
+    return {"field": field, "surfaces": tied}
+
+
 def read_all(repo):
     return {"phi": read_phi(repo), "solve": read_solve(repo), "yield": read_yield(repo),
             "writers": read_state_writers(repo), "arg_stores": rebinds_before_store(repo),
-            "flag": read_spectral_flag(repo), "ps": read_plane_stress(repo), "tangent": read_tangent(repo)}
+            "flag": read_spectral_flag(repo), "ps": read_plane_stress(repo), "tangent": read_tangent(repo), "scale": read_scale_tie(repo)}
 
 
 def emit_coq(T):
